@@ -36,19 +36,20 @@ type MemIOFS struct {
 
 // MemFS implements a memory file system using the avfs.VFS interface.
 type MemFS struct {
-	rootNode        *dirNode    // rootNode represent the root directory of the file system.
-	err             avfs.Errors // err regroups errors depending on the OS emulated.
-	volumes         volumes     // volumes contains the volume names (for Windows only).
-	dirMode         fs.FileMode // dirMode is the default fs.FileMode for a directory.
-	fileMode        fs.FileMode // fileMode is de default fs.FileMode for a file.
-	lastId          *uint64     // lastId is the last unique id used to identify files uniquely.
-	name            string      // name is the name of the file system.
-	avfs.CurDirFn               // CurDirFn provides current directory functions to a file system.
-	avfs.CurUserFn              // CurUserFn provides current user functions to a file system.
-	avfs.IdmFn                  // IdmFn provides identity manager functions to a file system.
-	avfs.UMaskFn                // UMaskFn provides UMask functions to file systems.
-	avfs.FeaturesFn             // FeaturesFn provides features functions to a file system or an identity manager.
-	avfs.OSTypeFn               // OSTypeFn provides OS type functions to a file system or an identity manager.
+	rootNode        *dirNode      // rootNode represent the root directory of the file system.
+	err             avfs.Errors   // err regroups errors depending on the OS emulated.
+	volumes         volumes       // volumes contains the volume names (for Windows only).
+	dirMode         fs.FileMode   // dirMode is the default fs.FileMode for a directory.
+	fileMode        fs.FileMode   // fileMode is de default fs.FileMode for a file.
+	lastId          *uint64       // lastId is the last unique id used to identify files uniquely.
+	renameMu        *verifRWMutex // renameMu serializes Rename calls on all views of the file system.
+	name            string        // name is the name of the file system.
+	avfs.CurDirFn                 // CurDirFn provides current directory functions to a file system.
+	avfs.CurUserFn                // CurUserFn provides current user functions to a file system.
+	avfs.IdmFn                    // IdmFn provides identity manager functions to a file system.
+	avfs.UMaskFn                  // UMaskFn provides UMask functions to file systems.
+	avfs.FeaturesFn               // FeaturesFn provides features functions to a file system or an identity manager.
+	avfs.OSTypeFn                 // OSTypeFn provides OS type functions to a file system or an identity manager.
 }
 
 // MemFile represents an open file descriptor.
